@@ -315,6 +315,10 @@ func lifeExec(tr *vh.Transcript, ops []string) {
 			}
 			sc.AddTask(id, lifeURL(f[2]), 1e18, func(float64, string) {}, func(string, float64, float64) {
 				s.rec.Add("session", "task %s miner-disconnected", id)
+				// a contract reacts to this at once by asking the allocator for a replacement: the dying session must not be eligible
+				if !sc.IsDisconnecting() {
+					s.rec.Add("session", "task %s told-while-the-miner-still-counts-as-connected", id)
+				}
 			}, func(_ string, _ float64, _ float64, err error) {
 				s.rec.Add("session", "task %s ended %s", id, lifeEndKind(err))
 			}, time.Now().Add(time.Duration(ms)*time.Millisecond))
